@@ -41,6 +41,7 @@ U(id="fib.continue_no_check", **{"class": "full-domain"},
            "janet_continue on the pending child is replaced by fib_continue_child_c (postconditions of the proved fib_continue_c; the child's representation invariant is assumed)",
            "janet_fiber_did_resume writes only the fiber's ev_callback/ev_state fields; janet_tuple_n / message builders have no effect on fiber or VM registers"],
   mutants=[
+    {"name": "coerce-error-inherited", "file": "vm.c", "find": "    janet_vm.signal_buf = &(state->buf);\n    janet_vm.coerce_error = 0;", "replace": "    janet_vm.signal_buf = &(state->buf);", "expect": "precondition"},
     {"name": "status-not-set-on-return", "file": "vm.c", "find": "    janet_fiber_set_status(fiber, sig);\n    janet_restore(&tstate);", "replace": "    janet_restore(&tstate);", "expect": "postcondition"},
     {"name": "restore-dropped", "file": "vm.c", "find": "    janet_fiber_set_status(fiber, sig);\n    janet_restore(&tstate);", "replace": "    janet_fiber_set_status(fiber, sig);", "expect": "postcondition"},
     {"name": "alive-not-set", "file": "vm.c", "find": "        janet_fiber_set_status(fiber, JANET_STATUS_ALIVE);\n", "replace": "", "expect": "precondition"},
@@ -166,6 +167,18 @@ U(id="fib.funcframe_tail.regrow", **{"class": "bounded"}, tier="thorough", mem_g
   assumes=["janet_fiber_setcapacity behaves as realloc: new block with the old contents, old block freed"],
   mutants=[
     {"name": "nil-fill-starts-late", "file": "fiber.c", "find": "    for (i = fiber->frame + stacksize; i < nextframetop; ++i)", "replace": "    for (i = fiber->frame + stacksize + 1; i < nextframetop; ++i)", "expect": "nil"},
+  ])
+
+U(id="fib.first_value", **{"class": "full-domain"},
+  clause="the value passed to the first resume of a new fiber arrives unchanged as its first parameter (bit for bit), as the one-element rest tuple when the function has only a rest parameter, "
+         "and resuming with nil or a function without parameters leaves slot 0 as created",
+  src=["vm.c"], link=["fiber.c", "wrap.c"], link_keep={"fiber.c": ["janet_fiber_status"], "wrap.c": ["janet_wrap_tuple", "janet_wrap_nil"]}, harness=["fib_first_value.c"], entry="h_first_value", mode="plain", nanbox=False,
+  replace_calls=["run_vm:fv_run_vm_stub", "_setjmp:fv_setjmp_stub", "janet_fiber_did_resume:fv_did_resume_stub", "janet_tuple_n:fv_tuple_n_stub"],
+  functions=["janet_continue_no_check"], checks=CHK, unwind=4, unwinding_assertions=True, timeout=300,
+  assumes=["run_vm is replaced by a stub that asserts the interpreter's precondition on parameter slot 0; _setjmp returns 0 (first return)", "arity triple as janet_verify / the compiler guarantee: 0 <= min_arity <= arity <= slotcount"],
+  mutants=[
+    {"name": "min-arity-decides", "file": "vm.c", "find": "            if (func->def->arity > 0) {\n                stack[0] = in;", "replace": "            if (func->def->min_arity > 0) {\n                stack[0] = in;", "expect": "first parameter|rest tuple"},
+    {"name": "value-never-stored", "file": "vm.c", "find": "    if (old_status == JANET_STATUS_NEW && !janet_checktype(in, JANET_NIL)) {", "replace": "    if (old_status == JANET_STATUS_PENDING && !janet_checktype(in, JANET_NIL)) {", "expect": "first parameter"},
   ])
 
 json.dump({"units": units}, open(os.path.join(V, 'units', 'C05.json'), 'w'), indent=1)
